@@ -123,6 +123,9 @@ type HOpts struct {
 
 // ExploreScenario explores one scenario exhaustively within the bound and feeds the collector.
 func ExploreScenario(t *testing.T, s *Scenario, o HOpts, c *Collector) {
+	if s.BoundExact > 0 {
+		o.Bound = s.BoundExact
+	}
 	if s.BoundCap > 0 && o.Bound > s.BoundCap {
 		o.Bound = s.BoundCap
 	}
